@@ -20,6 +20,8 @@
   {'file': 'igris/util/printf_impl.c', 'func': 'print_i', 'loop': 0, 'at': 'body-begin',
    'ghost': 'g_refc = (g_i == g_w) ? iso_digit_char((unsigned)(u % base), (ops & OPS_SPEC_UPPER_CASE) != 0) : g_refc; g_q = g_q / (unsigned)base;'},
   {'file': 'igris/util/printf_impl.c', 'func': 'print_i', 'loop': 0, 'at': 'body-end', 'ghost': 'g_i = g_i + 1;'},
+  {'file': 'igris/util/printf_impl.c', 'func': 'print_i', 'at': 'before', 'anchor': 'len = (int)(end - str);',
+   'ghost': '__CPROVER_assert(g_i == g_nd, "print_i: as many digits produced as |v| has in this base (least n >= 1 with |v| < base^n)"); __CPROVER_assume(g_i == g_nd);'},
   {'file': 'igris/util/printf_impl.c', 'func': 'print_i', 'at': 'after', 'anchor': 'space_count = MAX(space_count, 0);',
    'ghost': '__CPROVER_assert(G_LAYOUT_IS_ISO(prefix_len, zero_count, len, space_count), "print_i: the computed layout (prefix, zero, digit and space counts) is the ISO layout of this directive and value"); __CPROVER_assume(G_LAYOUT_IS_ISO(prefix_len, zero_count, len, space_count));'},
   {'file': 'igris/util/printf_impl.c', 'func': 'print_i', 'at': 'before', 'anchor': 'for (; space_count; --space_count)',
